@@ -421,6 +421,20 @@ def run_pair(component, harness_exe, lines, case_prefix=None, timeout=900, impl_
     return impl, model, aborts, maborts
 
 
+def run_impl_parallel(cmd, lines, case_prefix=None, timeout=900, env=None):
+    """run only the implementation side over the lines, in parallel chunks"""
+    from concurrent.futures import ThreadPoolExecutor
+    chunks = chunked(lines, NCPU, case_prefix)
+    out, aborts = [], []
+    with ThreadPoolExecutor(NCPU) as ex:
+        off = 0
+        for ch, (o, ab) in zip(chunks, ex.map(lambda ch: run_lines(cmd, ch, case_prefix, timeout, env), chunks)):
+            out += o
+            aborts += [(off + i, w, s) for (i, w, s) in ab]
+            off += len(ch)
+    return out, aborts
+
+
 # ----------------------------------------------------------------------------------------------
 # Known findings, violations, evidence
 # ----------------------------------------------------------------------------------------------
